@@ -33,7 +33,7 @@ ASSUMPTIONS = ["out of domain: links to undeclared segments, parallel links that
 
 
 def plan(tier):
-    return {"cases": 1000 if tier == "quick" else 30000, "shards": 16,
+    return {"cases": 1000 if tier == "quick" else 120000, "shards": 16,
             "shard_budget_s": 400 if tier == "quick" else 3300}
 
 
